@@ -406,6 +406,9 @@ pub fn run(ctx: &Ctx) -> i32 {
                 ctx.note(format!("collision config {:?}: |z|={:.1} not confirmed on the larger block (z={:.1})", cfg, o.z, o2.z));
             }
         }
+        if i % 23 == 4 {
+            ctx.sample(json!({"collision_cfg": cfg_json(cfg), "block_base": base.wrapping_add((i as u64) << 40).to_string(), "model_p": o.p, "empirical": o.mean, "z": o.z}));
+        }
         details.push(json!({"cfg": cfg_json(cfg), "model_p": o.p, "empirical": o.mean, "se": o.se, "z": o.z, "confirmed_violation": confirmed}));
     }
     println!("C07 collisions: {} configurations, {} register pairs, max |z| = {:.2}", cfgs.len(), pairs, maxz);
